@@ -392,8 +392,10 @@ func Read(r io.Reader) (*Font, error) {
 		info.UnderlinePosition = funit.Float64(postInfo.UnderlinePosition)
 		info.UnderlineThickness = funit.Float64(postInfo.UnderlineThickness)
 	} else if fontInfo != nil {
-		info.UnderlinePosition = fontInfo.UnderlinePosition
-		info.UnderlineThickness = fontInfo.UnderlineThickness
+		// Round the values so that they can be exactly represented in the
+		// post table.
+		info.UnderlinePosition = roundInt16(fontInfo.UnderlinePosition)
+		info.UnderlineThickness = roundInt16(fontInfo.UnderlineThickness)
 	}
 
 	// Currently we set IsItalic if there is any evidence of the font being
@@ -542,4 +544,15 @@ func getCFFVersion(fontInfo *type1.FontInfo) (head.Version, bool) {
 		return 0, false
 	}
 	return v, true
+}
+
+// roundInt16 rounds x to the nearest integer in the range of an int16.
+func roundInt16(x funit.Float64) funit.Float64 {
+	y := math.Round(float64(x))
+	if !(y >= math.MinInt16) { // also true for NaN
+		y = math.MinInt16
+	} else if y > math.MaxInt16 {
+		y = math.MaxInt16
+	}
+	return funit.Float64(y)
 }
